@@ -87,7 +87,7 @@ def conforms(t, ex):
     return None
 
 
-def run(ev, prop, tier, cfgs, max_deviating=400, build='dbg'):
+def run(ev, prop, tier, cfgs, max_deviating=400, build='dbg', limit=None):
     vlib.build_repo(build, targets=['smt'])
     drv = vlib.build_driver('net_driver', build)
     rd = vlib.run_dir('%s-satimpl' % prop)
@@ -133,10 +133,14 @@ def run(ev, prop, tier, cfgs, max_deviating=400, build='dbg'):
                         deviating.append(outs[k])
             del chunk[:]
 
+        ntests = 0
         for t in tests_of(path):
             chunk.append(t)
+            ntests += 1
             if len(chunk) >= 6000:
                 flush()
+            if limit and ntests >= limit:      # (the transitions come in breadth-first order: the limit keeps the shallow ones)
+                break
         flush()
         os.remove(path)
     ev.cov['satimpl_transitions_replayed'] = total
